@@ -84,6 +84,9 @@ class Ctx:
     def finish(self):
         ev_dir = os.path.join(VERIF, "evidence")
         os.makedirs(os.path.join(ev_dir, "replay"), exist_ok=True)
+        import glob
+        for old in glob.glob(os.path.join(ev_dir, "replay", f"{self.pid}-*.json")):
+            os.unlink(old)
         lines = []
         for h in self.known_hits:
             lines.append(f"KNOWN-FINDING: property={self.pid} {h['key']} — {h['message']}" + (f" [{h['where']}]" if h.get("where") else ""))
